@@ -828,4 +828,31 @@ Proof.
   intros HT s' Hs Hp. destruct (send_no_spin now s HT) as [H|[H|H]]; [contradiction|fold s' in H; congruence|exact H].
 Qed.
 
+(* C19 / C17: a resumed send transaction starts both timers afresh - zero expirations counted, the
+   next deadline a full period away - however long it was suspended and whatever had been counted
+   before (the defect repaired by 628622d: the counts survived the resume) *)
+Theorem sender_resume_fresh now s : ST s -> (s_phase s = SendEof \/ s_phase s = SCancelled) ->
+  let s' := s_resume now s in
+  c_count (t_inact (s_timer s')) = 0 /\ c_count (t_ack (s_timer s')) = 0 /\
+  s_until_timeout now s' = Some (N.min (c_timeout (t_ack (s_timer s))) (c_timeout (t_inact (s_timer s)))).
+Proof.
+  intros (T1 & T2 & T3) Hp. unfold s_resume.
+  assert (E : (match s_phase s with SendEof | SCancelled => supd_inact (c_reset now) (supd_ack (c_reset now) s) | _ => s end)
+              = supd_inact (c_reset now) (supd_ack (c_reset now) s)) by (destruct Hp as [Hp|Hp]; rewrite Hp; reflexivity).
+  rewrite E. cbn zeta. splits; [reflexivity|reflexivity|].
+  unfold s_until_timeout, ssuspended. cbn [s_state semit_ind set_s_state set_s_out tstate_eqb].
+  assert (Ph : s_phase (semit_ind (IResumed (s_sent (set_s_state TActive (supd_inact (c_reset now) (supd_ack (c_reset now) s)))))
+                          (set_s_state TActive (supd_inact (c_reset now) (supd_ack (c_reset now) s)))) = s_phase s) by reflexivity.
+  rewrite Ph.
+  assert (Hu : t_until now (s_timer (semit_ind (IResumed (s_sent (set_s_state TActive (supd_inact (c_reset now) (supd_ack (c_reset now) s)))))
+                          (set_s_state TActive (supd_inact (c_reset now) (supd_ack (c_reset now) s)))))
+               = Some (N.min (c_timeout (t_ack (s_timer s))) (c_timeout (t_inact (s_timer s))))).
+  { unfold t_until. cbn [s_timer semit_ind set_s_state set_s_out supd_inact supd_ack set_s_timer set_inact set_ack t_inact t_ack t_nak].
+    rewrite T3. unfold c_reset, c_until. cbn [c_paused c_start c_timeout omin].
+    destruct (N.ltb_spec now (now + c_timeout (t_ack (s_timer s)))); [|lia].
+    destruct (N.ltb_spec now (now + c_timeout (t_inact (s_timer s)))); [|lia].
+    f_equal. lia. }
+  destruct Hp as [Hp|Hp]; rewrite Hp; exact Hu.
+Qed.
+
 End SendNoSpin.
